@@ -46,9 +46,12 @@ func HashNameToFwThread(name enc.Name) int {
 func HashNameToAllPrefixFwThreads(name enc.Name) []bool {
 	threads := make([]bool, len(Threads))
 
-	// Dispatch all management requests to thread 0
+	// Dispatch all management requests to thread 0: every non-empty prefix of the name
+	// starts with "localhost" too. The zero-component prefix does not: an Interest for
+	// "/" with CanBePrefix is pending in the thread HashNameToFwThread gives for that name
 	if len(name) > 0 && bytes.Equal((name)[0].Val, LOCALHOST) {
 		threads[0] = true
+		threads[HashNameToFwThread(enc.Name{})] = true
 		return threads
 	}
 
